@@ -13,7 +13,10 @@ and the controller decides which.  For the duration of one execution
     started, already finished, or released by force) returns at once, as the real one does;
   * a thread that finished `run()` is only reported finished once the interpreter has really released its
     `_tstate_lock` (the controller waits for that before scheduling anybody else), so `lock.locked()` observed by the
-    code under test is a function of the schedule, not of OS timing.
+    code under test is a function of the schedule, not of OS timing;
+  * the cyclic garbage collector is disabled while controlled threads run and invoked by the (untraced) controller
+    between executions: finalising a suspended generator resumes its frame, which would otherwise add a scheduling
+    point at a moment chosen by the collector.
 
 A schedule is a list of choice indices into the canonical enabled list (running thread first if still enabled, then by
 name).  Choice 0 at a point where the running thread is still enabled = no preemption.  `explore()` is the iterative
@@ -185,6 +188,12 @@ class Execution:
                             ex.ctrl.release(); ex.sem[n].acquire()
                         ex.state[n] = 'ready'
                 ex._finish()
+        # Own the garbage collector: a failed accumulator keeps its exception (-> traceback -> frames -> the suspended batch generator) in a
+        # reference cycle; if the cyclic collector ran at a moment of its own choosing inside a traced thread, closing that generator would
+        # resume its frame and produce an extra, timing-dependent scheduling point.  Collection happens here, in the untraced controller.
+        import gc
+        gc_was_enabled = gc.isenabled()
+        gc.disable()
         self._install()
         th = threading.Thread(target=caller, name='verif-main')
         real_start = self._orig['start']
@@ -196,7 +205,10 @@ class Execution:
             self._loop()
         finally:
             self._uninstall()
-        real_join(th, 30)
+            real_join(th, 30)
+            gc.collect(1)          # the cycles of one execution are young; a full collection after each of ~10^5 executions would dominate the run time
+            if gc_was_enabled:
+                gc.enable()
         return self
 
     def _settle(self):
@@ -259,10 +271,27 @@ def explore(make_execution, body, bound, check, first_level=None, max_executions
     position: shard j explores those at positions i with i % k == j, and everything below them.
     Returns dict(executions, outcomes{key: count}, max_points, by_preemptions)."""
     stats = stats if stats is not None else {}
-    stats.update({'executions': 0, 'outcomes': {}, 'max_points': 0, 'by_preemptions': {}, 'capped': False, 'shared_prefix_executions': 0})
-    stack = [[]]
+    stats.update({'executions': 0, 'outcomes': {}, 'max_points': 0, 'by_preemptions': {}, 'capped': False, 'shared_prefix_executions': 0, 'warmup_executions': 0})
+    # Warm-up: the first traced execution(s) of a process take one-time paths (lazy imports, caches, first-use instrumentation) and so show a
+    # few extra scheduling points.  Run the default schedule until two consecutive executions give identical logs; only then is a log a
+    # valid description of "the" execution of a schedule.  (If that never happens the harness is not deterministic: exit 2.)
+    prev = None
+    for _ in range(6):
+        ex = make_execution([])
+        try:
+            ex.run(body)
+        except Deadlock:
+            pass
+        stats['warmup_executions'] += 1
+        cur = [(en, c) for (en, c, _) in ex.log]
+        if cur == prev:
+            break
+        prev = cur
+    else:
+        raise NonDeterminism('the default schedule does not stabilise: the harness owns less than all the nondeterminism')
+    stack = [([], [])]
     while stack:
-        prefix = stack.pop()
+        prefix, expect = stack.pop()
         ex = make_execution(prefix)
         try:
             ex.run(body)
@@ -271,6 +300,10 @@ def explore(make_execution, body, bound, check, first_level=None, max_executions
         log = ex.log
         if [c for (_, c, _) in log[:len(prefix)]] != list(prefix):
             raise NonDeterminism('prefix %r not reproduced' % (prefix,))
+        # replay safety: the enabled sets met while replaying the prefix must be the ones recorded when the prefix was generated
+        if [en for (en, _, _) in log[:len(expect)]] != expect:
+            i = next(k for k in range(len(expect)) if k >= len(log) or log[k][0] != expect[k])
+            raise NonDeterminism('replaying a prefix of %d choices: enabled set at point %d is %r, recorded %r' % (len(prefix), i, log[i][0] if i < len(log) else None, expect[i]))
         depth = sum(1 for c in prefix if c)
         shared = first_level is not None and depth < split_depth
         count_it = not (shared and first_level[1] != 0)
@@ -293,5 +326,5 @@ def explore(make_execution, body, bound, check, first_level=None, max_executions
             cost = preemptions(log, i)
             for alt in range(1, len(en)):
                 if cost + (1 if run_en else 0) <= bound:
-                    stack.append([x[1] for x in log[:i]] + [alt])
+                    stack.append(([x[1] for x in log[:i]] + [alt], [x[0] for x in log[:i + 1]]))
     return stats
